@@ -1325,7 +1325,12 @@ RULE = (
     "call again with rebuilt arguments) or reuse (call with a, write b into the same argument buffers and call, call with a fresh a); every record must equal the "
     "fresh-state observation of the plain call.  pairs additionally covers every *mode* of every entry (each-choice over opcode / variant / length switches "
     "of the argument specs: all RCP/TMP/LP/RRS/HRNP/HSTRP/TMS/ARS opcodes, CSBK opcodes, data header formats, FLCOs, LRRP documents, block types, codes) with "
-    "two same-shape calls: ordered pairs both ways, re-use both ways, scribble-and-repeat of each.  Non-trivial: >= 2 calls of the same group in one history (the later one is compared against its run in a fresh state); distinct by hash of the "
+    "two same-shape calls: ordered pairs both ways, re-use both ways, scribble-and-repeat of each.  Rejected variants: for every entry, calls with one argument just outside its spec (integers lo-1 / -1 / hi+1 / 2**width (+ 2**32, 2**64 for wide "
+    "fields); buffers one unit too short / too long / empty), kept when the library answers them with an exception in a fresh state (<= 4 per entry, one per "
+    "(argument, exception type)); pairs runs (rejected variant, first canonical call of every entry of the group) as exact ordered pairs, history has the kind "
+    "rejected_then_valid.  Object arguments (kaitai IPSC / MMDVM objects, Burst, HDAP, GPSData, MBXML document, DataHeader passed to other entry points): the "
+    "object's attribute tree is snapshotted before and compared after the call (argument_object_unchanged); same_object steps build the object once and run "
+    "X(obj), X(obj) and X(obj), Y(obj), X(obj) for entries taking the same type of object.  Non-trivial: >= 2 calls of the same group in one history (the later one is compared against its run in a fresh state); distinct by hash of the "
     "history.  Clock sub-check: the same call lists evaluated in three fresh interpreters (clock pinned 400 days apart + different random streams; same clock but "
     "PYTHONMALLOC=debug so that uninitialised memory reads 0xCD)."
 )
@@ -1344,6 +1349,9 @@ ASSUMPTIONS = [
     "containers, anything deeper, results of the state-probe entries marked no_scribble (crc.lookup_table, mbxml.tables).  Writing into attributes of returned "
     "objects or into tables a helper handed out is not a library call and is outside the statement (latent aliasing hazards at the anchored default-argument "
     "sites are listed in DESIGN.md as observations, patches kept unapplied in scratch/C19/)",
+    "object arguments: an object explicitly passed to another entry point is snapshotted (full attribute tree); the *receiver* of the methods under test is "
+    "not (its private lazy memo fields, e.g. Burst._target_radio_id_resolve_attempt, are its own business) - for receivers only the results of repeated calls "
+    "are compared",
     "exemptions for argument buffers: HammingCommon.check_and_correct and BPTC19696.repair_if_necessary(deinterleaved=True) (documented in-place repair)",
     "a result that differs between CPython's normal and debug (0xCD-filling) allocator depends on uninitialised memory, i.e. on what earlier calls left "
     "on the heap; this is judged under the first clause of the statement (same arguments, same result)",
@@ -1614,9 +1622,12 @@ def _rejected(eid: str, keep: int = 4):
         for c in reject_candidates(CATALOGUE[eid]):
             call = {"e": c["e"], "a": c["a"]}
             try:
-                o = _alone(call)
+                k = _key(call)
+                if k not in _B_CACHE:
+                    _B_CACHE[k] = fork_run([call], 20.0)[0]
+                o = _B_CACHE[k]
             except HarnessError:
-                continue  # the value cannot even be handed to the library by the entry script
+                continue  # the entry script cannot hand the value to the library, or the call does not return in time
             if "raised" in o and (c["arg"], o["raised"][0]) not in sigs and len(out) < keep:
                 sigs.add((c["arg"], o["raised"][0]))
                 out.append(call)
@@ -1973,8 +1984,8 @@ def drv_clock(ctx: Ctx, sub: SubCheck):
 
 
 SUBCHECKS = [
-    SubCheck("history", oracle_history, drv_history, "Hypothesis histories of 1..12 steps (plain calls, scribble-and-repeat, argument re-use): child A (history) vs children B_i (step alone); argument buffers unchanged"),
-    SubCheck("pairs", oracle_history, drv_pairs, "ordered pairs of canonical calls (writer, reader); every mode of every entry: same-shape ordered pairs, argument re-use, scribble-and-repeat; same differential oracle"),
+    SubCheck("history", oracle_history, drv_history, "Hypothesis histories of 1..12 steps (plain calls, rejected-then-valid, scribble-and-repeat, argument re-use, same-object-again): child A (history) vs children B_i (step alone); argument buffers and argument objects unchanged"),
+    SubCheck("pairs", oracle_history, drv_pairs, "ordered pairs of canonical calls (writer, reader); every mode of every entry: same-shape ordered pairs, argument re-use, scribble-and-repeat; rejected variant then every entry of the group; same-object steps; same differential oracle"),
     SubCheck("clock", oracle_clock, drv_clock, "three fresh interpreters: parsing calls agree under clocks pinned 400 days apart and different random streams; all calls agree under a 0xCD-filling allocator"),
 ]
 
